@@ -117,7 +117,24 @@ def run_check(pid, tier, seed, args):
         proof['bad'].append('lean skipped (--no-lean)')
 
     # 3. correspondence + oracle ----------------------------------------------------------------
-    mod.run(ctx)
+    try:
+        mod.run(ctx)
+    except InfraError:
+        raise
+    except Exception as exc:  # noqa: BLE001
+        # An exception escaping from the REAL code (innermost frame inside the repository) while the check drives it
+        # with inputs that are fine on the unchanged tree is a broken correspondence, not a tooling problem.
+        tb = exc.__traceback__
+        frames = traceback.extract_tb(tb)
+        repo_root = os.path.realpath(os.environ.get('VERIF_REPO', '/repo'))
+        inner = frames[-1] if frames else None
+        if inner is None or not os.path.realpath(inner.filename).startswith(repo_root + os.sep):
+            raise
+        ctx.mismatch(f'the implementation raised {type(exc).__name__}: {str(exc)[:200]} at '
+                     f'{os.path.relpath(inner.filename, repo_root)}:{inner.lineno} ({inner.name}) under the inputs of the check',
+                     {'kind': 'implementation-exception', 'exception': type(exc).__name__, 'message': str(exc)[:300],
+                      'where': f'{os.path.relpath(inner.filename, repo_root)}:{inner.lineno}',
+                      'traceback': ''.join(traceback.format_tb(tb))[-1500:]})
 
     # 4. search when proof / correspondence broke ----------------------------------------------
     broke = bool(proof['bad']) or bool(ctx.mismatches)
@@ -128,7 +145,12 @@ def run_check(pid, tier, seed, args):
                 if not (isinstance(v[1], dict) and v[1].get('finding_key') in known_keys and v[1].get('finding_key') is not None)]
     if broke and not unlisted() and hasattr(mod, 'search'):
         ctx.note('proof or correspondence broke: running failing-input search')
-        mod.search(ctx)
+        try:
+            mod.search(ctx)
+        except InfraError:
+            raise
+        except Exception as exc:  # noqa: BLE001  the search drives the (possibly broken) implementation: never fatal
+            ctx.note(f'failing-input search ended with {type(exc).__name__}: {str(exc)[:200]}')
 
     # 5. verdict -------------------------------------------------------------------------------
     new_violations = []
